@@ -258,8 +258,70 @@ class LockAnalysis(object):
     def _site_targets(self, site):
         prog = self.prog
         if site.kind == "call":
-            return [t for t, how in prog.call_targets(site)]
+            return [t for t, how in prog.call_targets(site)] + self._fmt_targets(site)
         return [d[1] for d in prog.drop_targets(site.term["ty"]) if d[0] == "local"]
+
+    # Formatting escapes.  A value of a crate type handed to extern generic code by its Debug/Display bound
+    # (`tracing::field::debug(&self)`, `fmt::rt::Argument::new_debug(&x)`) or coerced to `&dyn Debug` may have its
+    # `fmt` called by that code - with whatever locks are held at that point.  Only the lock analysis needs this: a
+    # hand-written `fmt` that takes a lock is an acquisition like any other.
+    FMT_TRAITS = ("std::fmt::Debug", "std::fmt::Display", "std::fmt::LowerHex", "std::fmt::UpperHex")
+
+    def _fmt_impls(self):
+        c = self.__dict__.get("_fmt_impl_cache")
+        if c is None:
+            c = {}
+            for b in self.prog.bodies.values():
+                if b.raw.get("impl_trait") in self.FMT_TRAITS and b.raw.get("impl_self"):
+                    # only hand-written impls can take locks (a derive only forwards to its fields - which are found
+                    # through their own types)
+                    d = b.raw["impl_self"].split("<")[0]
+                    c.setdefault(d, []).append(b)
+            self.__dict__["_fmt_impl_cache"] = c
+        return c
+
+    def _local_adts_in(self, ty_ix, depth=0):
+        prog = self.prog
+        out = set()
+        if not isinstance(ty_ix, int) or depth > 6:
+            return out
+        t = prog.types[ty_ix]
+        k = t.get("k")
+        if k == "ref" or k == "ptr":
+            return self._local_adts_in(t.get("in"), depth + 1)
+        if k == "adt":
+            if t.get("def") in prog.adts and t.get("def") in self._fmt_impls():
+                out.add(t["def"])
+            for a in t.get("args", []):
+                out |= self._local_adts_in(a, depth + 1)
+        elif k in ("tuple", "array", "slice"):
+            for a in t.get("elems", []) or ([t.get("in")] if t.get("in") is not None else []):
+                out |= self._local_adts_in(a, depth + 1)
+        return out
+
+    def _fmt_targets(self, site):
+        prog = self.prog
+        c = site.callee or {}
+        if c.get("local") or c.get("rlocal") or prog.local_target(site) is not None:
+            return []
+        adts = set()
+        # (i) extern generic code of the formatting family, instantiated with a crate type
+        path = (c.get("path") or "")
+        low = path.lower()
+        if any(x in low for x in ("fmt::", "::debug", "::display", "field::", "to_string", "as_display", "as_dyn_error")) \
+                or low.startswith(("std::fmt", "core::fmt", "alloc::fmt")):
+            for g in c.get("gargs", []):
+                adts |= self._local_adts_in(g)
+        # (ii) values coerced to a formatting trait object in the block that ends in this call
+        for st in site.body.stmts(site.bb):
+            if st["k"] == "assign" and st["rv"]["k"] == "cast" and "Unsize" in st["rv"].get("ck", ""):
+                to = prog.ty_str(st["rv"]["to"]) if isinstance(st["rv"].get("to"), int) else ""
+                if "dyn " in to and any(x in to for x in ("Debug", "Display", "tracing::Value", "Error")):
+                    adts |= self._local_adts_in(st["rv"]["from"])
+        out = []
+        for d in sorted(adts):
+            out += self._fmt_impls().get(d, [])
+        return out
 
     def _compute_acquires(self):
         prog = self.prog
